@@ -137,10 +137,31 @@ def parse_structs(text, typedefs, structs):
             if f and not f.startswith("#"):
                 t = parse_type(f, typedefs, structs)
                 nm = re.sub(r"\[[^\]]*\]", "", f).replace("*", " ").split()[-1]
-                fields.append((t, nm.lower()))
+                # array extents are part of the member: name[2][3]
+                fields.append((t, nm.lower() + "".join(re.findall(r"\[[^\]]*\]", f)).replace(" ", "")))
         for nm in (m.group(1), m.group(3)):
             if nm:
                 out[nm.lower()] = fields
+    return out
+
+
+def derived_type_dims(module_text):
+    """{type name lower: {member lower: [extent, ...]}} for the array members of the bind(C) derived types of a module."""
+    out, cur = {}, None
+    for ln in module_text.split("\n"):
+        low = ln.split("!")[0].strip().lower()
+        m = re.match(r"^type\s*,\s*bind\s*\(\s*c\s*\)\s*(?:::)?\s*(\w+)", low)
+        if m:
+            cur = out.setdefault(m.group(1), {})
+            continue
+        if low.startswith("end type"):
+            cur = None
+            continue
+        if cur is not None and "::" in low:
+            for ent in re.split(r",(?![^()]*\))", low.split("::", 1)[1]):
+                md = re.match(r"^\s*(\w+)\s*\(([^)]*)\)", ent)
+                if md:
+                    cur[md.group(1)] = [d.strip() for d in md.group(2).split(",")]
     return out
 
 
@@ -287,6 +308,24 @@ def compare(fproto_text, header_texts, module_text=None):
     for name, ff in fstructs.items():
         if name in cstructs:
             cf = cstructs[name]
-            if len(cf) != len(ff) or any(n1 != n2 or compatible(t1, t2) is False for (t1, n1), (t2, n2) in zip(cf, ff)):
-                smism.append({"struct": name, "c_fields": cf, "fortran_fields": ff})
+            # gfortran flattens an array member to its total size; the extents themselves are read from the module text
+            fdims = derived_type_dims(module_text or "").get(name, {})
+
+            def member(n, fortran):
+                base = n.split("[")[0]
+                dims = [d.strip() for d in re.findall(r"\[([^\]]*)\]", n)]
+                if fortran and base in fdims:
+                    dims = list(reversed(fdims[base]))
+                elif dims and not fortran and base not in fdims:
+                    tot = 1
+                    for d in dims:
+                        tot = tot * int(d) if d.isdigit() else None
+                        if tot is None:
+                            break
+                    dims = [str(tot)] if tot is not None else dims
+                return base, dims
+            def elem(t, n):      # an array member is compared by its element type (the extents are compared by member())
+                return (t[0], 0) if "[" in n and t is not None else t
+            if len(cf) != len(ff) or any(member(n1, False) != member(n2, True) or compatible(elem(t1, n1), elem(t2, n2)) is False for (t1, n1), (t2, n2) in zip(cf, ff)):
+                smism.append({"struct": name, "c_fields": cf, "fortran_fields": ff, "fortran_extents": fdims})
     return checked, undec, mism, unbound, smism
